@@ -145,6 +145,16 @@ def entries() -> t.List[t.Tuple[str, dict, t.List[dict]]]:
                                       'D': P(('p', 'in', 'S')),
                                       'O': P(('r', 'rec', {'start': 'S', 'dest': 'D', 'max': 1}))}, 'input': 'I', 'output': 'O'},
         [{'D': ['next', 'ok'], 'S': ['ok', 'raise:E1', 'ok']}, {'D': ['next', 'ok'], 'S': ['raise:E1', 'ok', 'ok']}])
+    # tests/dag/recurrent_subgraph/test_nested_subgraph: inner subgraph on the path of the outer one
+    add('rec_nested', {'nodes': {'I': P(('x', 'plain')), 'S': P(('p', 'in', 'I')), 'D1': P(('p', 'in', 'S')),
+                                 'M': P(('r', 'rec', {'start': 'S', 'dest': 'D1', 'max': 1})), 'D2': P(('p', 'in', 'M')),
+                                 'O': P(('r', 'rec', {'start': 'S', 'dest': 'D2', 'max': 1}))}, 'input': 'I', 'output': 'O'},
+        [{'D1': ['next', 'ok', 'next', 'ok'], 'D2': ['next', 'ok']}, {'D1': ['next', 'ok', 'ok'], 'D2': ['next', 'ok']},
+         {'D1': ['ok', 'next', 'ok'], 'D2': ['next', 'ok']}])
+    add('rec_nested_default', {'nodes': {'I': P(('x', 'plain')), 'S': P(('p', 'in', 'I')), 'D1': dict(P(('p', 'in', 'S')), use_default=True),
+                                         'M': P(('r', 'rec', {'start': 'S', 'dest': 'D1', 'max': 1})), 'D2': dict(P(('p', 'in', 'M')), use_default=True),
+                                         'O': P(('r', 'rec', {'start': 'S', 'dest': 'D2', 'max': 1}))}, 'input': 'I', 'output': 'O'},
+        [{'D1': ['next'], 'D2': ['next', 'ok']}, {'D1': ['next', 'ok', 'next', 'ok'], 'D2': ['next']}])
     add('rec_in_oneof', {'nodes': {'I': P(('x', 'plain')), 'S': P(('p', 'in', 'I')), 'D': P(('p', 'in', 'S')),
                                    'A': P(('r', 'rec', {'start': 'S', 'dest': 'D', 'max': 1})), 'B': P(('p', 'in', 'I')),
                                    'O': P(('o', 'oneof', ['A', 'B']))}, 'input': 'I', 'output': 'O'})
